@@ -203,6 +203,15 @@ pub fn check(cfg: &CfgSpec) -> Outcome {
             let path = e.path();
             if !bad.iter().any(|f| path.contains(f)) {
                 out.viol("error-names-wrong-field", format!("offending field(s) {bad:?} but the error path is `{path}`; {cfg:?}"));
+            } else if !bad.iter().any(|f| CfgSpec::path_names(&path, f)) {
+                // the path is the dotted position of the field in the public configuration structure
+                // (error.rs: `within` prepends the enclosing component; an enum variant name may be one extra component); a path that mixes the section of one
+                // offending field with the leaf of another names a field that does not exist
+                let want: Vec<&str> = bad.iter().map(|f| CfgSpec::full_path(f)).collect();
+                out.viol("error-path-is-not-an-offending-field", format!("offending field(s) {want:?} but the error path is `{path}`; {cfg:?}"));
+            }
+            if bad.len() >= 2 {
+                out.class("rejected:two-or-more-offending-fields");
             }
         }
     }
